@@ -1,3 +1,4 @@
 -- root of the FpVerif library: every property module (which pull in models, specs, lemmas, Gen)
 import FpVerif.Properties.C01
 import FpVerif.Properties.C04
+import FpVerif.Properties.C03
